@@ -169,6 +169,31 @@ def make_sessions(ctx, n):
         except Exception as e:     # noqa: BLE001
             ev.update(raised=True, exc=f"{type(e).__name__}: {e}"[:200], X=[], Y=[], D=[], vec=[], fam="AnAm", n=0, m=0, d=0)
         out.append(dict(sid=sid, events=[ev], strs=strs))
+    # closed-form cases ON the storage boundaries of the result: the shortest strings of every family whose distance just
+    # passes 2^8 and 2^16 (enumerated, not drawn: with an insertion / deletion weight above the substitution weight the
+    # distance passes the boundary while length x substitution weight is still below it)
+    sid = n
+    for w in ([1, 1, 1], [1, 2, 3], [3, 1, 2], [2, 5, 3], [3, 5, 7], [1, 1, 3], [3, 3, 1], [3, 2, 1]):
+        ins, dele, sub = w
+        for bound in (256, 65536):
+            up = lambda c: -(-(bound + 1) // c)
+            for fam, nn_, mm in (("AnAm", 0, up(ins)), ("AnAm", up(dele), 0), ("AnBmToBm", up(dele), 3), ("AnBm", up(min(sub, ins + dele)), up(min(sub, ins + dele))),
+                                 ("AnBm", 1, up(ins)), ("AnBm", up(dele), 2)):
+                sid += 1
+                metric = Levenshtein() if w == [1, 1, 1] and sid % 2 else WeightedLevenshtein(*w)
+                ev = dict(op="Closed", raised=False, w=w)
+                a, b = "CW" if sid % 2 else "x-"
+                src = {"AnBm": a * nn_, "AnAm": a * nn_, "AnBmToBm": a * nn_ + b * mm}[fam]
+                dst = {"AnBm": b * mm, "AnAm": a * mm, "AnBmToBm": b * mm}[fam]
+                try:
+                    if sid % 3 == 0:
+                        d = metric.calc_pdist_vector([src, dst])[0]
+                    else:
+                        d = metric.calc_cdist_matrix([src, "Q"], ["Q", dst])[0][1]
+                    ev.update(fam=fam, n=nn_, m=mm, d=int(d) if float(d) == int(d) else -7)
+                except Exception as e:     # noqa: BLE001
+                    ev.update(raised=True, exc=f"{type(e).__name__}: {e}"[:200], X=[], Y=[], D=[], vec=[], fam="AnAm", n=0, m=0, d=0)
+                out.append(dict(sid=sid, events=[ev], strs=None))
     return out
 
 
